@@ -122,6 +122,9 @@ def finish(prop_id, tier, seed, results, queries, t_start, extra_assumptions=(),
                     r["qid"], c["what"], c["args"], c.get("replay")))
             if not r["violations"] and not r["unreproduced"]:
                 harness_errors.append("%s: refuted without counterexample" % r["qid"])
+            if q is not None and q.keep_going and not r.get("exhausted"):
+                inconclusive.append("%s: exploration past the recorded finding(s) did not exhaust (paths=%s cpu=%s)" % (
+                    r["qid"], r.get("paths"), r.get("cpu_s")))
         elif v in ("inconclusive",):
             inconclusive.append("%s: paths=%s unknown=%s cpu=%s %s %s" % (
                 r["qid"], r.get("paths"), r.get("unknown"), r.get("cpu_s"), r.get("error", ""), r.get("unknown_why", "")))
